@@ -126,16 +126,18 @@ impl FeelIterator {
         let mut overflow = true;
         'inner: for (x, iteration_state) in self.iteration_states.iter_mut().enumerate() {
           if overflow {
+            // the step is always 1 or -1, the index is compared with the end before it is moved,
+            // so that ranges ending at the largest or the smallest integer do not overflow
             if x == last_iteration_state_index {
-              if iteration_state.step > 0 && iteration_state.index + iteration_state.step > iteration_state.end {
+              if iteration_state.step > 0 && iteration_state.index >= iteration_state.end {
                 break 'outer;
               }
-              if iteration_state.step < 0 && iteration_state.index + iteration_state.step < iteration_state.end {
+              if iteration_state.step < 0 && iteration_state.index <= iteration_state.end {
                 break 'outer;
               }
             }
             if iteration_state.step > 0 {
-              if iteration_state.index + iteration_state.step <= iteration_state.end {
+              if iteration_state.index < iteration_state.end {
                 iteration_state.index += iteration_state.step;
                 overflow = false;
               } else {
@@ -144,7 +146,7 @@ impl FeelIterator {
               }
             }
             if iteration_state.step < 0 {
-              if iteration_state.index + iteration_state.step >= iteration_state.end {
+              if iteration_state.index > iteration_state.end {
                 iteration_state.index += iteration_state.step;
                 overflow = false;
               } else {
